@@ -123,9 +123,14 @@ static void apply(const struct op *o, struct mstate *m) {
     switch (o->kind) {
     case O_CREATE: {
         int variant = o->c;
+        /* variant 11: a clock that reads differently every time it is asked (first the reading of variant 0, then two months later, then the error
+         * value, then a pre-epoch value).  How often create consults the clock is not prescribed: the birthday must be that of a value returned. */
+        int seqclock = (variant == 11 && m->table == 0 && !(m->nullpat & 1)); if (variant == 11) variant = 0;
         tape_for(m->table, variant, E.tape[m->table]); E.clock[m->table] = clock_for(m->table, variant);
+        if (seqclock) { E.clock_seq[0] = E.clock[0]; E.clock_seq[1] = E.clock[0] + 2 * R_STEP; E.clock_seq[2] = UINT64_MAX; E.clock_seq[3] = R_EPOCH - 1; E.clock_seq_n = 4; E.clock_seq_i = 0; }
         polyseed_data *d = (polyseed_data *)(uintptr_t)0xDEAD;
         st = polyseed_create((unsigned)o->b, &d);
+        E.clock_seq_n = 0;
         unsigned f = (unsigned)o->b & 7;
         if (!ref_supported(f, m->mask)) want = ST_UNSUPPORTED;
         else { alloc_expected = 1; want = m->armed ? ST_MEMORY : ST_OK; }
@@ -136,6 +141,9 @@ static void apply(const struct op *o, struct mstate *m) {
             memcpy(r->secret, E.tape[m->table], 19); r->secret[18] &= 0x3F;
             uint64_t t = (m->nullpat & 1) ? 1700000000ULL : E.clock[m->table];
             r->birthday = ref_birthday_index(t); r->features = f;
+            if (seqclock) { unsigned bi = ref_birthday_index(polyseed_get_birthday(d)); int okb = 0; uint64_t rd[4] = { E.clock[0], E.clock[0] + 2 * R_STEP, UINT64_MAX, R_EPOCH - 1 };
+                for (unsigned long q = 0; q < E.n_time && q < 4; q++) if (bi == ref_birthday_index(rd[q])) okb = 1; if (E.n_time > 4) okb = 1;
+                if (okb) r->birthday = bi; else { snprintf(k, sizeof k, "c13:clock-readings:%s", o->name); BADV(k, "%s: the clock was read %lu times; the birthday (month %u) is that of none of the values it returned", o->name, E.n_time, bi); } }
             /* C18: sources */
             int tsrc = (m->nullpat & 1) ? (E.n_libc_time >= 1 && E.n_time == 0) : (E.n_time >= 1 && E.n_libc_time == 0);
             int asrc = (m->nullpat & 2) ? (E.n_libc_malloc == 1 && E.n_alloc == 0) : (E.n_alloc == 1 && E.n_libc_malloc == 0);
@@ -204,6 +212,19 @@ static void apply(const struct op *o, struct mstate *m) {
         if (st != want) { snprintf(k, sizeof k, "c10:enable-return:%s", o->name); BADV(k, "%s returned %d, expected %d", o->name, st, want); }
     } break;
     case O_INJECT: {
+        if (o->c == 1) {    /* re-entrancy: the allocator callback of a create installs the other table (an application finishing its set-up lazily);
+                             * every dependency call made after that moment goes through the new table.  Which calls a create makes after allocating is
+                             * not prescribed, so the only oracles are "nothing of the old table is called afterwards", the status and the ledger; the seed
+                             * is released at once (through the new table). */
+            if (m->nullpat) { st = want = 0; break; }          /* only from a fully injected table (the callback must exist) */
+            int other = 1 - m->table; E_reinject_from_alloc = other;
+            polyseed_data *t = NULL; alloc_expected = 1; st = polyseed_create(0, &t); want = m->armed ? ST_MEMORY : ST_OK;
+            if (E_reinject_from_alloc >= 0) { E_reinject_from_alloc = -1; BADV("c18:reentrant-injection:no-callback", "%s: create never called the injected allocator", o->name); }
+            else { m->table = other; m->nullpat = 0; }
+            if (st == POLYSEED_OK) polyseed_free(t);
+            if (E_stale_calls) { snprintf(k, sizeof k, "c18:stale-after-reentrant-injection:%s", o->name); BADV(k, "%s: %lu calls went to functions of the table that had already been replaced from inside the allocator callback", o->name, E_stale_calls); }
+            break;
+        }
         polyseed_dependency d; deps_variant(o->a, o->b & 1, o->b & 2, o->b & 4, &d);
         polyseed_inject(&d); memset(&d, 0xEE, sizeof d);      /* the caller's struct is gone */
         m->table = o->a; m->nullpat = o->b; st = want = 0;
@@ -218,6 +239,27 @@ static void apply(const struct op *o, struct mstate *m) {
         case 2: st = polyseed_decode("xxx xxx", 0, &lo, &d); want = ST_NUM_WORDS; break;
         case 3: st = polyseed_decode_explicit("qq qq qq qq qq qq qq qq qq qq qq qq qq qq qq qq", 0, polyseed_get_lang(5), &d); want = ST_LANG; break;
         case 4: st = polyseed_decode(phr, 5, &lo, &d); want = ST_CHECKSUM; break;      /* right phrase, wrong coin */
+        case 9: {           /* a valid English phrase typed with no-break and ideographic spaces: only the injected NFKD makes it readable, for both decoders */
+            static char typed[2048]; static int have3;
+            if (!have3) { have3 = 1; char en[2048]; ref_phrase(&fixed, 0, 0, en, 0); char *o2 = typed; int k = 0; for (const char *q = en; *q; q++) { if (*q == ' ') { const char *sp = (k++ & 1) ? "\xC2\xA0" : "\xE3\x80\x80"; strcpy(o2, sp); o2 += strlen(sp); } else *o2++ = *q; } *o2 = 0; }
+            alloc_expected = 1;
+            polyseed_data *da = (polyseed_data *)(uintptr_t)0xBEEF; int sa = polyseed_decode(typed, 0, &lo, &da); int wa = m->armed && E.alloc_seq > 0 ? ST_MEMORY : ref_decode(typed, 0, -1, m->mask, 0, CAP, NULL, NULL);
+            if (sa == POLYSEED_OK) { uint8_t g[32]; polyseed_store(da, g); polyseed_free(da); if (memcmp(g, img, 32)) BADV("c13:typed-phrase:seed", "%s: automatic detection restored another seed", o->name); }
+            if (!(m->armed && E.alloc_seq > 0)) { if (sa != wa) { snprintf(k, sizeof k, "c13:status:%s:auto", o->name); BADV(k, "%s through automatic detection returned %d, model %d", o->name, sa, wa); }
+                st = polyseed_decode_explicit(typed, 0, polyseed_get_lang(0), &d); want = (m->armed && E.alloc_seq > 0) ? ST_MEMORY : ref_decode(typed, 0, 0, m->mask, 0, CAP, NULL, NULL);
+                if (st == POLYSEED_OK) { uint8_t g[32]; polyseed_store(d, g); if (memcmp(g, img, 32)) BADV("c13:typed-phrase:seed", "%s: decode_explicit restored another seed", o->name); } }
+            else { st = sa; want = wa; }
+        } break;
+        case 7: case 8: {   /* every single space is a boundary: a valid phrase with one space doubled has seventeen words (one of them empty); fifteen words with a
+                             * doubled space are sixteen, one of which no list has */
+            static char dbl[2][2048]; static int have2;
+            if (!have2) { have2 = 1; char *sp = phr; for (int i = 0; i < 5; i++) sp = strchr(sp + 1, ' '); size_t n = (size_t)(sp - phr);
+                memcpy(dbl[0], phr, n); dbl[0][n] = ' '; strcpy(dbl[0] + n + 1, sp);
+                strcpy(dbl[1], dbl[0]); *strrchr(dbl[1], ' ') = 0; }
+            const char *q = dbl[o->a - 7];
+            if (o->a == 7) { st = polyseed_decode(q, 0, &lo, &d); want = ref_decode(q, 0, -1, m->mask, 0, CAP, NULL, NULL); if (want != ST_NUM_WORDS) BADV("c13:model-internal", "doubled-space phrase: model says %d", want); }
+            else { st = polyseed_decode_explicit(q, 0, polyseed_get_lang(4), &d); want = ref_decode(q, 0, 4, m->mask, 0, CAP, NULL, NULL); if (want != ST_LANG) BADV("c13:model-internal", "fifteen words with a doubled space: model says %d", want); }
+        } break;
         case 5: case 6: {   /* a checksum-valid phrase that two lists recognise (English/French words; characters common to both Chinese lists): always "multiple languages" */
             static char amb[2][2048]; static int have[2];
             int w = o->a - 5, la = w ? 8 : 0, lb = w ? 9 : 4;
@@ -418,7 +460,7 @@ static void build_profile(void) {
         static const int CF[] = { 0, 1, 6 };
         for (int s = 0; s < NSLOT; s++) {
             for (int j = 0; j < 3; j++) add_op(O_CREATE, s, CF[j], s, "create(slot%d,features=%d)", s, CF[j]);
-            if (s == 0) { add_op(O_CREATE, s, (int)0xFFFFFF09u, s, "create(slot0,features=0xffffff09)"); add_op(O_CREATE, s, 0, 9, "create(slot0,features=0,clock first month after 2107)"); add_op(O_CREATE, s, 0, 10, "create(slot0,features=0,clock 2^32 s after the epoch)"); }
+            if (s == 0) { add_op(O_CREATE, s, (int)0xFFFFFF09u, s, "create(slot0,features=0xffffff09)"); add_op(O_CREATE, s, 0, 9, "create(slot0,features=0,clock first month after 2107)"); add_op(O_CREATE, s, 0, 11, "create(slot0,features=0,clock reading differently each time)"); add_op(O_CREATE, s, 0, 10, "create(slot0,features=0,clock 2^32 s after the epoch)"); }
             add_op(O_FREE, s, 0, 0, "free(slot%d)", s);
             for (int p = 0; p < NPW; p++) add_op(O_CRYPT, s, p, 0, "crypt(slot%d,pw%d)", s, p);
             for (int d = 0; d < NSLOT; d++) if (d != s) {
@@ -434,6 +476,7 @@ static void build_profile(void) {
         add_op(O_BADCALL, 0, 0, 0, "load(bad-checksum)"); add_op(O_BADCALL, 1, 0, 0, "load(bad-header)"); add_op(O_BADCALL, 2, 0, 0, "decode(two-words)");
         add_op(O_BADCALL, 3, 0, 0, "decode_explicit(unknown-words)"); add_op(O_BADCALL, 4, 0, 0, "decode(wrong-coin)");
         add_op(O_BADCALL, 5, 0, 0, "decode(ambiguous en/fr phrase)"); add_op(O_BADCALL, 6, 0, 0, "decode(ambiguous zh_s/zh_t phrase)");
+        add_op(O_BADCALL, 7, 0, 0, "decode(valid phrase, one space doubled)"); add_op(O_BADCALL, 8, 0, 0, "decode_explicit(fifteen words, one space doubled)"); add_op(O_BADCALL, 9, 0, 0, "decode + decode_explicit(valid English phrase typed with U+3000 / U+00A0 spaces)");
     } else if (P_FEAT) {
         NSLOT = 1; PASSWORDS[0] = "pw"; NPW = 1;
         RECODES[0] = (struct recv){ 0, 5, 0 }; RECODES[1] = (struct recv){ 3, 5, 1 }; NREC = 2;
@@ -467,7 +510,7 @@ static void build_profile(void) {
         for (int s = 0; s < 2; s++) { add_op(O_CREATE, s, s ? 1 : 0, s, "create(slot%d,features=%d)", s, s ? 1 : 0); add_op(O_FREE, s, 0, 0, "free(slot%d)", s); add_op(O_CRYPT, s, s, 0, "crypt(slot%d,pw%d)", s, s); }
         add_op(O_RELOAD, 0, 1, 0, "load(store(slot0))->slot1"); for (int v = 0; v < NREC; v++) add_op(O_RECODE, 0, 1, v, "decode%s(encode(slot0,%s))->slot1", RECODES[v].autodetect ? "" : "_explicit", RL[RECODES[v].li].code);
         add_op(O_ENABLE, 1, 0, 0, "enable_features(1)");
-        add_op(O_INJECT, 0, 0, 0, "inject(A)"); add_op(O_INJECT, 1, 0, 0, "inject(B)"); add_op(O_INJECT, 1, 1, 0, "inject(B:time=NULL)"); add_op(O_INJECT, 0, 1, 0, "inject(A:time=NULL)");
+        add_op(O_INJECT, 0, 0, 0, "inject(A)"); add_op(O_INJECT, 1, 0, 0, "inject(B)"); add_op(O_INJECT, 1, 1, 0, "inject(B:time=NULL)"); add_op(O_INJECT, 0, 1, 0, "inject(A:time=NULL)"); add_op(O_INJECT, 0, 0, 1, "create+free while the allocator callback injects the other table");
         add_op(O_ARM, 0, 0, 0, "arm-allocation-fault"); add_op(O_BADCALL, 0, 0, 0, "load(bad-checksum)"); add_op(O_BADCALL, 4, 0, 0, "decode(wrong-coin)");
     } else if (P_INJECT) {
         NSLOT = 1;
